@@ -82,3 +82,10 @@ add(
     "Trusts vf/lang.py and numpy; data non-negative wherever max/min is paired with mul, booleans for or/and (the declared carriers).",
     "DESIGN.md section 3 C08",
 )
+add(
+    "C11",
+    "property-based testing: generated sum-product expressions (ground roots) vs. derivatives of the reference evaluator's root with respect to every leaf entry (exact multilinear differences; 5-point stencil under plates)",
+    "Bounded exploration over expressions with 1-6 distinct leaf tensors over 4 names of sizes 1-3, any reduced subset, optional plates, leaves wrapped in renamings / Slices / injective index substitutions / Cat, with and without apply_optimizer, for (add,mul) and (logaddexp,add): the forward value and the adjoint of every leaf at every entry are compared with the oracle. Three open known findings are excluded by construction.",
+    "Trusts vf/lang.py; each leaf occurs once so the root is multilinear in its entries; roots are ground (all free inputs reduced) so 'the derivative of the root' is unambiguous.",
+    "DESIGN.md section 3 C11",
+)
